@@ -31,7 +31,31 @@ pub fn manual(case: &Case, prop: &str) -> Verdict {
     let Some((files, root)) = crate::ws::case_files(case) else { return Verdict::Skip("malformed-case") };
     let ws = crate::ws::Workspace::new(&files, &root);
     let a = ws.analysis();
-    let text = files.iter().find(|f| f.0 == root).map(|f| f.1.clone()).unwrap_or_default();
+    let text_of = |name: &str| files.iter().find(|f| f.0 == name).map(|f| f.1.clone()).unwrap_or_default();
+    let nth_in = |text: &str, needle: &str, k: usize| -> Option<usize> {
+        let mut from = 0;
+        let mut found = None;
+        for _ in 0..=k {
+            let p = text[from..].find(needle)?;
+            found = Some(from + p);
+            from += p + needle.len();
+        }
+        found
+    };
+    // expectations about an included file: only "diag" is supported there
+    for e in case["expect"].as_array().cloned().unwrap_or_default() {
+        if let Some(fname) = e["file"].as_str() {
+            let t = text_of(fname);
+            let Some(at) = nth_in(&t, e["at"].as_str().unwrap_or("\u{0}"), 0) else { return Verdict::Skip("malformed-case") };
+            let Some(fid) = ws.fs.id_of(&crate::ws::abs(fname)) else { return Verdict::Skip("malformed-case") };
+            let ds = a.diagnostics();
+            let covered = ds.get(&fid).map(|v| v.iter().any(|x| r2(x.location.range).0 <= at + 1 && r2(x.location.range).1 >= at)).unwrap_or(false);
+            if e["diag"].as_bool() == Some(true) && !covered {
+                return Verdict::Fail(Failure::new(&format!("{prop}.manual"), format!("{prop}.manual:{}", case["name"].as_str().unwrap_or("?")), format!("no diagnostic at {fname}:{at} ({})", e["at"])));
+            }
+        }
+    }
+    let text = text_of(&root);
     let nth = |needle: &str, k: usize| -> Option<usize> {
         let mut from = 0;
         let mut found = None;
@@ -44,6 +68,9 @@ pub fn manual(case: &Case, prop: &str) -> Verdict {
     };
     let diags = a.diagnostics();
     for e in case["expect"].as_array().cloned().unwrap_or_default() {
+        if e["file"].is_string() {
+            continue;
+        }
         let Some(at) = nth(e["at"].as_str().unwrap_or("\u{0}"), e["nth"].as_u64().unwrap_or(0) as usize) else { return Verdict::Skip("malformed-case") };
         let got = a.goto_definition(pos(ws.root, at)).map(|t| (t.file, r2(t.range).0));
         let want = match e["def"].as_str() {
